@@ -1352,8 +1352,23 @@ func SelectExpr(query *Query, current Map, expr *sqlparser.SelectExprs, opts ...
 					prefix := expr.As.String()
 					for key, value := range fuse {
 						if len(prefix) > 0 {
-							data[fmt.Sprintf("%s.%s", prefix, key)] = value
-							continue
+							key = fmt.Sprintf("%s.%s", prefix, key)
+						}
+						// a fused column may be the still unresolved slot of an
+						// async call, like any other column
+						if slot, ok := value.(*any); ok {
+							query.postProcessors = append(query.postProcessors, func() error {
+								value := *slot
+								for {
+									x, ok := value.(*any)
+									if !ok {
+										break
+									}
+									value = *x
+								}
+								data[key] = value
+								return nil
+							})
 						}
 						data[key] = value
 					}
